@@ -23,9 +23,12 @@ package compile
 import (
 	"errors"
 	"fmt"
+	"math"
 
 	"go.uber.org/thriftrw/ast"
 )
+
+var errIntegerOutOfRange = errors.New("the value is out of range for the type")
 
 // ConstantValue represents a compiled constant value or a reference to one.
 type ConstantValue interface {
@@ -88,8 +91,22 @@ func (c ConstantBool) Link(scope Scope, t TypeSpec) (ConstantValue, error) {
 func (c ConstantInt) Link(scope Scope, t TypeSpec) (ConstantValue, error) {
 	rt := RootTypeSpec(t)
 	switch spec := rt.(type) {
-	case *I8Spec, *I16Spec, *I32Spec, *I64Spec:
-		// TODO bounds checks?
+	case *I8Spec:
+		if c < math.MinInt8 || c > math.MaxInt8 {
+			return nil, constantValueCastError{Value: c, Type: t, Reason: errIntegerOutOfRange}
+		}
+		return c, nil
+	case *I16Spec:
+		if c < math.MinInt16 || c > math.MaxInt16 {
+			return nil, constantValueCastError{Value: c, Type: t, Reason: errIntegerOutOfRange}
+		}
+		return c, nil
+	case *I32Spec:
+		if c < math.MinInt32 || c > math.MaxInt32 {
+			return nil, constantValueCastError{Value: c, Type: t, Reason: errIntegerOutOfRange}
+		}
+		return c, nil
+	case *I64Spec:
 		return c, nil
 	case *DoubleSpec:
 		return ConstantDouble(float64(c)).Link(scope, t)
@@ -106,7 +123,7 @@ func (c ConstantInt) Link(scope Scope, t TypeSpec) (ConstantValue, error) {
 		}
 	case *EnumSpec:
 		for _, item := range spec.Items {
-			if item.Value == int32(c) {
+			if int64(item.Value) == int64(c) {
 				return EnumItemReference{Enum: spec, Item: &item}, nil
 			}
 		}
@@ -115,7 +132,7 @@ func (c ConstantInt) Link(scope Scope, t TypeSpec) (ConstantValue, error) {
 			Value: c,
 			Type:  t,
 			Reason: fmt.Errorf(
-				"%v is not a valid value for enum %q", int32(c), spec.ThriftName()),
+				"%v is not a valid value for enum %q", int64(c), spec.ThriftName()),
 		}
 	}
 
